@@ -13,7 +13,23 @@ import (
 	"golang.org/x/tools/go/ssa"
 )
 
-const repoRoot = "/repo"
+// repoRoot is the tree under check: /repo, or $VERIF_REPO for trials of seeded
+// changes in a scratch worktree (never used by the registered commands).
+var repoRoot = func() string {
+	if v := os.Getenv("VERIF_REPO"); v != "" {
+		return v
+	}
+	return "/repo"
+}()
+
+// outRoot is where replays and evidence are written: the verif root, or
+// $VERIF_OUT for scratch trials.
+func outRoot(root string) string {
+	if v := os.Getenv("VERIF_OUT"); v != "" {
+		return v
+	}
+	return root
+}
 
 var smtLogPath string
 var startPrefix []dec
